@@ -1,5 +1,6 @@
 """recipes.py -- call recipes for ~40 public functions (inputs generator + call), shared by the generic properties
 C01-C04.  A recipe needs no model: it is used for relations between calls of the implementation itself."""
+import operator as _operator
 import numpy as np
 import xarray as xr
 
@@ -74,6 +75,16 @@ def g_ens(rng):
     f = gens.rand_da(rng, sizes, nan_p=0.1, lo=0, hi=4, den=2)
     o = gens.rand_da(rng, sizes, dims=["a", "b"] if rng.random() < 0.7 else ["b"], nan_p=0.1, lo=0, hi=4, den=2)
     return [f, o]
+
+
+def g_ens_thr(rng):
+    """ensemble + observation + per-case lower / upper thresholds along 'b' (arrays are inputs too: they can be transposed,
+    label-shuffled, dask-chunked, stored as integers like the data)"""
+    f, o = g_ens(rng)
+    nb = f.sizes["b"]
+    lo = xr.DataArray([float(rng.randint(0, 4)) / 2 for _ in range(nb)], dims=["b"], coords={"b": list(f["b"].values)})
+    hi = lo + xr.DataArray([float(rng.randint(1, 4)) / 2 for _ in range(nb)], dims=["b"], coords={"b": list(f["b"].values)})
+    return [f, o, lo, hi]
 
 
 def g_cdf(rng, on_grid=False):
@@ -179,6 +190,9 @@ def recipes():
         Recipe("roc_curve_data", g_prob, lambda x, **k: P.roc_curve_data(x[0], x[1], [0, 0.25, 0.5, 0.75, 1], **k), lazy=False, weights=True, kind="ratio", obs_extra=True),
         Recipe("roc_curve_data_unchecked", g_prob, lambda x, **k: P.roc_curve_data(x[0], x[1], [0, 0.25, 0.5, 0.75, 1], check_args=False, **k), lazy=False, weights=True, kind="ratio", obs_extra=True),
         Recipe("binary_discretise_proportion", g_point, lambda x, **k: PR.binary_discretise_proportion(x[0], [1, 2], ">=", **k)),
+        Recipe("binary_discretise_proportion_eq_operator", g_point, lambda x, **k: PR.binary_discretise_proportion(x[0], [1, 2], _operator.eq, **k)),
+        Recipe("binary_discretise_proportion_ne_operator", g_point, lambda x, **k: PR.binary_discretise_proportion(x[0], [1, 2], _operator.ne, **k)),
+        Recipe("binary_discretise_proportion_lt_tolerance", g_point, lambda x, **k: PR.binary_discretise_proportion(x[0], [1, 2], "<", abs_tolerance=0.25, **k)),
         Recipe("binary_discretise_proportion_autosqueeze", g_point, lambda x, **k: PR.binary_discretise_proportion(x[0], [2], ">", autosqueeze=True, **k)),
         Recipe("proportion_exceeding_scalar", g_point, lambda x, **k: PR.proportion_exceeding(x[0], 2.0, **k)),
         Recipe("proportion_exceeding", g_point, lambda x, **k: PR.proportion_exceeding(x[0], [0.5, 2.5], **k), keeps=["threshold"]),
@@ -189,6 +203,8 @@ def recipes():
         Recipe("crps_for_ensemble", g_ens, lambda x, **k: P.crps_for_ensemble(x[0], x[1], "m", include_components=True, **k), fixed=[], weights=True, specific=["m"], fwd_weights=True),
         Recipe("crps_for_ensemble_fair", g_ens, lambda x, **k: P.crps_for_ensemble(x[0], x[1], "m", method="fair", **k), weights=True, specific=["m"], fwd_weights=True),
         Recipe("tail_tw_crps_for_ensemble", g_ens, lambda x, **k: P.tail_tw_crps_for_ensemble(x[0], x[1], "m", 2.0, **k), weights=True, specific=["m"], fwd_weights=True),
+        Recipe("interval_tw_crps_array_thresholds", g_ens_thr, lambda x, **k: P.interval_tw_crps_for_ensemble(x[0], x[1], "m", x[2], x[3], **k), specific=["m"], lazy=False),
+        Recipe("tail_tw_crps_array_threshold", lambda rng: g_ens_thr(rng)[:3], lambda x, **k: P.tail_tw_crps_for_ensemble(x[0], x[1], "m", x[2], tail="upper", **k), specific=["m"], lazy=False),
         Recipe("interval_tw_crps_for_ensemble", g_ens, lambda x, **k: P.interval_tw_crps_for_ensemble(x[0], x[1], "m", 1.0, 3.0, **k), weights=True, specific=["m"], fwd_weights=True),
         Recipe("brier_score_for_ensemble", g_ens, lambda x, **k: P.brier_score_for_ensemble(x[0], x[1], "m", [1, 2], **k), weights=True, specific=["m"], fwd_weights=True),
         Recipe("crps_cdf_exact", g_cdf, lambda x, **k: P.crps_cdf(x[0], x[1], include_components=True, **k), fixed=["threshold"], weights=True),
